@@ -27,6 +27,7 @@ THEOREMS = {
         "MG.C01.backward_sound",
     ],
     "MG.Proofs.Lemmas.InPlaceRefine": [
+        "MG.C04R.inplace_on_owner_refines_numpy_general",
         "MG.C04R.inplace_on_owner_refines_numpy",
         "MG.C04R.inplace_on_owner_is_ssa_renaming",
         "MG.C04R.outRes_ops",
